@@ -50,9 +50,14 @@ static const char* scripts[][4] = {
     {"R", "y", "z", "R"},  // 19
 };
 
+// -Dgen=K -Dfibers=F: every program of F fibers with 1..K operations each over {R,W,r,w,y,z} is
+// enumerated as an input instead of one of the shapes above
+static char genbuf[4][8];
+static const char* cur[4];
+
 static void* body(void* p) {
   int id = (int)(intptr_t)p;
-  for (const char* s = scripts[shape][id]; *s; s++) {
+  for (const char* s = cur[id]; *s; s++) {
     if (*s == 'R') {
       fiber_rwlock_rdlock(&L);
       rd_acq(id, 0);
@@ -103,7 +108,21 @@ int harness_main(void) {
   fiber_t* f[4];
   int nf = 0;
   fmc_begin();
-  for (; nf < 4 && scripts[shape][nf] && scripts[shape][nf][0]; nf++) f[nf] = fiber_create(STK, body, (void*)(intptr_t)nf);
+  int gen = fmc_param("gen", 0);
+  if (gen) {
+    nf = fmc_param("fibers", 2);
+    for (int i = 0; i < nf; i++) {
+      int len = 1 + fmc_input(gen);
+      for (int k = 0; k < len; k++) genbuf[i][k] = "RWrwyz"[fmc_input(6)];
+      cur[i] = genbuf[i];
+    }
+  } else {
+    for (; nf < 4 && scripts[shape][nf] && scripts[shape][nf][0]; nf++) {}
+    for (int i = 0; i < 4; i++) cur[i] = scripts[shape][i] ? scripts[shape][i] : "";
+  }
+  int order[8];
+  rt_creation_order(nf, order);
+  for (int i = 0; i < nf; i++) f[order[i]] = fiber_create(STK, body, (void*)(intptr_t)order[i]);
   fmc_yield();
   for (int i = 0; i < nf; i++)
     if (fiber_join(f[i], 0) != FIBER_SUCCESS) fmc_fail("rwlock harness: join failed");
